@@ -112,7 +112,7 @@ fn ensure_constraints(ch: &mut Choices, prog: &mut Program, want: usize) {
 
 /// Inject ≥ 1 violation; returns the label of the injection class.
 pub fn inject(ch: &mut Choices, prog: &mut Program) -> String {
-    let class = ch.weighted(&[17, 7, 9, 14, 11, 9, 9, 8, 8, 8]);
+    let class = ch.weighted(&[16, 7, 9, 13, 10, 9, 9, 7, 7, 7, 6]);
     let e = ScalarSpec::gen_nonzero(ch);
     let neg = |s: &ScalarSpec| -> Option<ScalarSpec> {
         Some(match s {
@@ -258,6 +258,28 @@ pub fn inject(ch: &mut Choices, prog: &mut Program) -> String {
             let l = *ls.last().unwrap();
             list_mut(prog, l).push(Op::Constrain { lc, err: None, base: Some(vec![]) });
             "confusable-pair".into()
+        }
+        // two rows in a row: c·X − c·X (trivially true) and the same spelling with a further term
+        // d·Z (false whenever Z ≠ 0): the second must not be taken for a repetition of the first
+        10 => {
+            let sv: Vec<crate::program::StaticVar> = crate::program::static_vars(prog).into_iter().filter(|s| s.val.iter().all(|v| !v.is_zero_spec())).collect();
+            if sv.len() < 2 {
+                return "row-extension(n/a)".into();
+            }
+            let x = sv[ch.below(sv.len())].var;
+            let z = sv[ch.below(sv.len())].var;
+            let c = ScalarSpec::Small(1 + ch.below(9) as u64);
+            let nc = neg(&c).unwrap();
+            let d = ScalarSpec::gen_nonzero(ch);
+            let row1 = vec![(x, Sc::C(c)), (x, Sc::C(nc))];
+            let mut row2 = row1.clone();
+            row2.push((z, Sc::C(d)));
+            let ls = lists(prog);
+            let l = *ls.last().unwrap();
+            let list = list_mut(prog, l);
+            list.push(Op::Constrain { lc: row1, err: None, base: Some(vec![]) });
+            list.push(Op::Constrain { lc: row2, err: None, base: Some(vec![]) });
+            "row-extension".into()
         }
         // a gate error offset by a linear error of the same size
         _ => {
